@@ -2,26 +2,27 @@
     multi-client half: the model (Model/MultiClient.v) is run over the same
     interleaving the real code executed; after every step the result class
     and the abstracted state observed on disk are compared with the model's. *)
-From Rocfl Require Import Base.Bytes Model.VersionNum Model.MultiClient Model.KnownC14.
+From Rocfl Require Import Base.Bytes Model.VersionNum Model.MultiClient.
 Open Scope N_scope.
 
 (** finite-map equality of version states (logical path -> digest token) *)
 Definition vs_sub (a c : vstate) : bool :=
   forallb (fun x => existsb (fun y => bytes_eqb (fst x) (fst y) && (snd x =? snd y)) c) a.
 Definition vs_eqb (a c : vstate) : bool := vs_sub a c && vs_sub c a.
-Fixpoint vss_eqb (a c : list vstate) : bool :=
+Fixpoint vss_eqb (a c : list cver) : bool :=
   match a, c with
   | [], [] => true
-  | x :: a', y :: c' => vs_eqb x y && vss_eqb a' c'
+  | x :: a', y :: c' => (fst x =? fst y) && vs_eqb (snd x) (snd y) && vss_eqb a' c'
   | _, _ => false
   end.
 
 (** observation of one object of the main repository: lineage (numbered by the
     driver: +1 whenever an object directory appears), head (number, width) of
-    the root inventory, states of v1..vh *)
-Definition obs_obj := (N * (N * N) * list vstate)%type.
-(** observation of one staged inventory: head (number, width), head state *)
-Definition obs_stg := ((N * N) * vstate)%type.
+    the root inventory, configuration token (digest algorithm, content directory),
+    (metadata token, state) of v1..vh *)
+Definition obs_obj := (N * (N * N) * N * list cver)%type.
+(** observation of one staged inventory: head (number, width), configuration token, head state *)
+Definition obs_stg := ((N * N) * N * vstate)%type.
 (** result class (0 Ok, 1 Err, 2 Panic), main repository, all staging roots *)
 Definition obs_step := (N * list (bytes * obs_obj) * list (skey * obs_stg))%type.
 
@@ -36,8 +37,9 @@ Definition nm (k : N) : bytes :=
 Definition ev (c : N) (o : op) : event := (c, o).
 Definition put (p : bytes) (d : N) : edit := (p, Some d).
 Definition pd (p : bytes) (d : N) : bytes * N := (p, d).
-Definition oo (id : bytes) (lin n w : N) (vs : list vstate) : bytes * obs_obj := (id, (lin, (n, w), vs)).
-Definition os (c : N) (id : bytes) (n w : N) (st : vstate) : skey * obs_stg := ((c, id), ((n, w), st)).
+Definition cv (m : N) (st : vstate) : cver := (m, st).
+Definition oo (id : bytes) (lin n w k : N) (vs : list cver) : bytes * obs_obj := (id, (lin, (n, w), k, vs)).
+Definition os (c : N) (id : bytes) (n w k : N) (st : vstate) : skey * obs_stg := ((c, id), ((n, w), k, st)).
 Definition ob (rc : N) (m : list (bytes * obs_obj)) (s : list (skey * obs_stg)) : obs_step := (rc, m, s).
 
 Definition rc_of (r : res unit) : N := match r with Ok _ => 0 | Err => 1 | Panic => 2 end.
@@ -46,9 +48,9 @@ Definition obj_matches (st : mc) (x : bytes * obs_obj) : bool :=
   match mget st (fst x) with
   | None => false
   | Some o =>
-      let '(lin, (n, w), vs) := snd x in
+      let '(lin, (n, w), k, vs) := snd x in
       (o_lineage o =? lin) && (vn_number (o_head o) =? n) && (vn_width (o_head o) =? w)
-      && vss_eqb (o_versions o) vs
+      && (o_cfg o =? k) && vss_eqb (o_versions o) vs
   end.
 Definition main_matches (st : mc) (obs : list (bytes * obs_obj)) : bool :=
   Nat.eqb (List.length (mc_main st)) (List.length obs) && forallb (obj_matches st) obs.
@@ -57,18 +59,18 @@ Definition stg_matches (st : mc) (x : skey * obs_stg) : bool :=
   match sget st (fst (fst x)) (snd (fst x)) with
   | None => false
   | Some s =>
-      let '((n, w), vs) := snd x in
-      (vn_number (s_head s) =? n) && (vn_width (s_head s) =? w) && vs_eqb (s_state s) vs
+      let '((n, w), k, vs) := snd x in
+      (vn_number (s_head s) =? n) && (vn_width (s_head s) =? w) && (s_cfg s =? k) && vs_eqb (s_state s) vs
   end.
 Definition stag_matches (st : mc) (obs : list (skey * obs_stg)) : bool :=
   Nat.eqb (List.length (mc_stag st)) (List.length obs) && forallb (stg_matches st) obs.
 
-(** per step: (disagreement code, step is in the known class recreated-lineage);
+(** per step: (disagreement code, the commit's metadata is fresh ([step_fresh]));
     code = 1 result class + 2 main repository + 4 staging *)
 Fixpoint check_mc (dbg : bool) (st : mc) (es : list event) (obs : list obs_step) : list (N * bool) :=
   match es, obs with
   | (c, o) :: es', (rc, m, s) :: obs' =>
-      let k := step_known st c o in
+      let k := step_fresh st c o in
       let st' := fst (step dbg st c o) in
       let r := snd (step dbg st c o) in
       let code := (if rc_of r =? rc then 0 else 1) + (if main_matches st' m then 0 else 2)
